@@ -331,7 +331,9 @@ Theorem C12_eq_compares_name_attrs_children :
 Proof. reflexivity. Qed.
 Print Assumptions C12_eq_compares_name_attrs_children.
 
-(* a pickled document carries its markup instead of its contents and is re-parsed on loading *)
+(* a pickled document carries its markup instead of its contents — rendered afresh on EVERY call (c12_getstate_assigned
+   lists only the assignments that are statements of the function body itself, not those under a condition) — and is
+   re-parsed on loading *)
 Theorem C12_getstate_setstate_shape :
   assoc_s "contents" c12_getstate_assigned = Some "[]" /\
   assoc_s "markup" c12_getstate_assigned = Some "self.decode()" /\
